@@ -29,6 +29,12 @@ func init() {
 		}
 		return "unknown layer", false
 	}
+	Replayers["c17neg"] = func(raw json.RawMessage) (string, bool) {
+		var c c17NegCase
+		json.Unmarshal(raw, &c)
+		k, msg := c17Neg(c)
+		return fmt.Sprintf("%s %s", k, msg), k != ""
+	}
 	Replayers["c17rec"] = func(raw json.RawMessage) (string, bool) {
 		var c c17RecCase
 		json.Unmarshal(raw, &c)
@@ -158,6 +164,78 @@ func c17RecPair(c c17RecCase) (string, string) {
 	return "", ""
 }
 
+// c17NegCase: what a session establishment negotiates must not depend on an
+// earlier establishment (on another connection, or with the same options value).
+type c17NegCase struct {
+	Earlier int  `json:"earlier"` // advertised by the BMC contacted first: bit0 suite 17, bit1 suite 3, bit2 suite 8
+	Later   int  `json:"later"`   // advertised by the BMC under test
+	Prefs   int  `json:"prefs"`   // 0: none (library defaults); 1: [17,3]; 2: [3,17]; 3: [8,17,3]
+	Shared  bool `json:"shared"`  // the same options value (and preference slice) is used for both
+}
+
+func c17Neg(c c17NegCase) (string, string) {
+	adv := func(mask int) []byte {
+		recs := []ref.CSRecord{csRecOEM}
+		if mask&1 != 0 {
+			recs = append(recs, csRec17)
+		}
+		if mask&2 != 0 {
+			recs = append(recs, csRec3)
+		}
+		if mask&4 != 0 {
+			recs = append(recs, csRec8)
+		}
+		return csData(recs...)
+	}
+	prefs := func() []ipmi.CipherSuite {
+		switch c.Prefs {
+		case 1:
+			return []ipmi.CipherSuite{ipmi.CipherSuite17, ipmi.CipherSuite3}
+		case 2:
+			return []ipmi.CipherSuite{ipmi.CipherSuite3, ipmi.CipherSuite17}
+		case 3:
+			return []ipmi.CipherSuite{suiteOf(ref.Suite{Auth: 2, Integ: 2, Conf: 1}), ipmi.CipherSuite17, ipmi.CipherSuite3}
+		}
+		return nil
+	}
+	run := func(mask int, opts *bmc.V2SessionOpts) string {
+		cfg := defaultConfig()
+		cfg.CipherSuiteData = adv(mask)
+		w := newWorld(cfg, nil, nil)
+		out := ""
+		guard(func() {
+			s, err := w.Conn.NewV2Session(w.Ctx, opts)
+			if err != nil {
+				out = "error: " + err.Error()
+				return
+			}
+			out = fmt.Sprintf("suite %d/%d/%d", s.AuthenticationAlgorithm, s.IntegrityAlgorithm, s.ConfidentialityAlgorithm)
+			s.Close(w.Ctx)
+		})
+		for _, rx := range w.BMC.Log {
+			if rx.Name == "Open Session Request" {
+				out += fmt.Sprintf(" proposed %d/%d/%d", rx.Fields["auth"], rx.Fields["integ"], rx.Fields["conf"])
+			}
+		}
+		return out
+	}
+	mk := func() *bmc.V2SessionOpts {
+		return &bmc.V2SessionOpts{SessionOpts: bmc.SessionOpts{Username: "neg", Password: defaultConfig().Password, MaxPrivilegeLevel: ipmi.PrivilegeLevelUser}, CipherSuites: prefs()}
+	}
+	fresh := run(c.Later, mk())
+	first := mk()
+	run(c.Earlier, first)
+	second := mk()
+	if c.Shared {
+		second = first
+	}
+	used := run(c.Later, second)
+	if used != fresh {
+		return "C17/negotiation-depends-on-an-earlier-establishment", fmt.Sprintf("preferences kind %d against a BMC advertising mask %03b: %q; after an establishment against a BMC advertising %03b (same options value: %v): %q", c.Prefs, c.Later, fresh, c.Earlier, c.Shared, used)
+	}
+	return "", ""
+}
+
 func runC17(r *rep.R) {
 	r.SetRule("layer level: for every decodable layer, every ordered pair (earlier, later) from its shape catalogue (valid encodings per branch and optional-tail length, their all-FF / all-00 same-length variants, and every truncation of them) is decoded earlier-then-later into one value and later into a fresh value; all exported fields, contents and payload must agree. Connection level: every ordered pair of commands (first one also failed or retried, k<=1 deviations) on one connection and one session; the second command's result must equal its result on a fresh connection. distinct = distinct (layer, earlier, later) / (history, choices)")
 	reg := decLayers()
@@ -245,8 +323,31 @@ func runC17(r *rep.R) {
 			}
 		}
 	}
+	// session establishment after an earlier establishment
+	for earlier := 1; earlier < 8; earlier++ {
+		for later := 1; later < 8; later++ {
+			for prefs := 0; prefs < 4; prefs++ {
+				for _, shared := range []bool{false, true} {
+					idx++
+					if !r.Mine(idx) {
+						continue
+					}
+					c := c17NegCase{Earlier: earlier, Later: later, Prefs: prefs, Shared: shared}
+					k, msg := c17Neg(c)
+					r.Eval(rep.H("neg", fmt.Sprint(c)), true)
+					r.Trace()
+					if k != "" {
+						r.Outcome("violation")
+						r.Violate(k, msg, "c17neg", c, nil)
+					} else {
+						r.Outcome("negotiation:independent-of-earlier-establishment")
+					}
+				}
+			}
+		}
+	}
 	// connection level
-	alphabet := []int{opGetDeviceID, opChassisStatus, opGetSDR, opSetPriv, opPowerReading, opSensorReading, opSystemGUID, opSessionInfo, opAuthCaps, opChassisControl, opRetrieveSDRs, opSensorInfo}
+	alphabet := []int{opGetDeviceID, opChassisStatus, opGetSDR, opSetPriv, opPowerReading, opSensorReading, opSystemGUID, opSessionInfo, opAuthCaps, opChassisControl, opRetrieveSDRs, opSensorInfo, c03Ops[8], c03Ops[24]}
 	for _, inSess := range []bool{true, false} {
 		for _, a := range alphabet {
 			for _, b := range alphabet {
